@@ -41,7 +41,7 @@ VECTOR, MATRIX = T("Vector"), T("Matrix")
 ARG_POOL = [
     (INT, "3"),
     (DOUBLE, "1.5"),
-    (T("string", const=True, suf="&"), '"hi, there"'),
+    (T("string", const=True, suf="&"), '"hi,  there   (two  spaces)"'),
     (T("Other", ns=("ns",)), "ns::Other()"),
     (T("Other", ns=("ns",), const=True, suf="&"), "ns::Other(1, 2)"),
     (T("Other", ns=("ns",), suf="*"), "nullptr"),
